@@ -1193,19 +1193,34 @@ namespace bluetoe {
                     {
                         assert( read.buffer_size <= maximum_pdu_size );
 
+                        const bool was_first = first_;
+
                         if ( first_ )
                         {
                             size_   = read.buffer_size + header_size;
                             first_  = false;
                         }
 
-                        if ( read.buffer_size + header_size == size_ )
+                        // only the first value can be truncated
+                        if ( read.buffer_size + header_size == size_ && !( !was_first && value_truncated( attr, index, read.buffer_size, max_data_size ) ) )
                         {
                             current_ = details::write_handle( current_, handle_index_mapping< Server >::handle_by_index( index ) );
                             current_ += static_cast< std::uint8_t >( read.buffer_size );
                         }
                     }
                 }
+            }
+
+            // If a value fills the remaining room in the response completely, it might have been longer
+            bool value_truncated( const details::attribute& attr, std::size_t index, std::size_t read_size, std::size_t max_data_size )
+            {
+                if ( read_size != max_data_size )
+                    return false;
+
+                std::uint8_t probe;
+                auto more = attribute_access_arguments::read( &probe, &probe + 1, read_size, config_, security_, &server_ );
+
+                return attr.access( more, index ) == details::attribute_access_result::success && more.buffer_size != 0;
             }
 
             collect_attributes( std::uint8_t* begin, std::uint8_t* end,
